@@ -8,8 +8,8 @@ use crate::util::*;
 use crate::{Case, Ctx};
 use slotted_egraphs::*;
 
-fn meas(p: &ProgressMeasure) -> String {
-    format!("{},{},{},{}", p.number_of_classes, p.number_of_live_classes, p.sum_of_slots, p.sum_of_symmetries)
+fn meas(p: &(usize, usize, usize, usize)) -> String {
+    format!("{},{},{},{}", p.0, p.1, p.2, p.3)
 }
 
 pub fn exec_hist(ops: Vec<Op>) -> Case {
@@ -31,7 +31,7 @@ pub fn exec_hist(ops: Vec<Op>) -> Case {
         };
         let _ = slotted_egraphs::verif::take_events();
         for (k, op) in ops2.iter().enumerate() {
-            let before = eg.progress();
+            let before = eg.verif_measure();
             match op {
                 Op::Add(t) => {
                     let re = to_recexpr::<Main>(t);
@@ -52,7 +52,7 @@ pub fn exec_hist(ops: Vec<Op>) -> Case {
                 }
                 Op::Query => {}
             }
-            let after = eg.progress();
+            let after = eg.verif_measure();
             let evs: Vec<&str> = slotted_egraphs::verif::take_events().into_iter().map(|(k, _)| k).collect();
             steps.push(format!("{}>{}:{}", meas(&before), meas(&after), evs.join(".")));
             // everything remembered so far must still hold
